@@ -45,6 +45,8 @@ def owned_random(seed=0):
         tpm_mod.get_random_bytes = old_tpm
 
 
+import time as _time_mod
+_REAL_TIME = _time_mod.time
 _cache = {}
 
 
@@ -69,18 +71,39 @@ def pub_der(name: str) -> bytes:
 
 @contextlib.contextmanager
 def fixed_now(iso='2024-02-29T12:00:00+00:00'):
-    """Own datetime.now() inside ndn.app_support.security_v2 (self_sign / sign_req read the wall clock)."""
+    """Own the wall clock inside ndn.app_support.security_v2 (self_sign / sign_req read it): whichever standard call the module
+    uses - datetime.now / utcnow / today / fromtimestamp(time.time()), time.time, time.time_ns - answers the same instant."""
     import datetime as _dt
+    import time as _time
     import ndn.app_support.security_v2 as sv2
     instant = _dt.datetime.fromisoformat(iso)
+    epoch = instant.timestamp()
 
     class FixedDateTime(_dt.datetime):
         @classmethod
         def now(cls, tz=None):
-            return instant if tz is not None else instant.replace(tzinfo=None)
-    old = sv2.datetime
-    sv2.datetime = FixedDateTime
+            return instant.astimezone(tz) if tz is not None else instant.replace(tzinfo=None)
+
+        @classmethod
+        def utcnow(cls):
+            return instant.astimezone(_dt.timezone.utc).replace(tzinfo=None)
+
+        @classmethod
+        def today(cls):
+            return instant.replace(tzinfo=None)
+    old = getattr(sv2, 'datetime', None)
+    old_mod = getattr(sv2, 'dt', None)
+    if old is not None and isinstance(old, type):
+        sv2.datetime = FixedDateTime
+    g_time, g_ns = _time.time, _time.time_ns
+    patched_time = g_time is _REAL_TIME           # an enclosing owned_env already owns time.time: leave it alone
+    if patched_time:
+        _time.time = lambda: epoch
+        _time.time_ns = lambda: int(epoch * 1e9)
     try:
         yield instant
     finally:
-        sv2.datetime = old
+        if old is not None and isinstance(old, type):
+            sv2.datetime = old
+        if patched_time:
+            _time.time, _time.time_ns = g_time, g_ns
